@@ -2,7 +2,7 @@
    Iter / Proofs.  Layer A: the trie as a pure tree (every node resolved); [H] is any hash function. *)
 From Coq Require Import String List Sorted NArith Arith.
 From V.Base Require Import Hex.
-From V.C02 Require Import Model Lemmas Sem InsDel Unique Iter Proofs Spec SpecProofs SpecPerm ModelB ProofsB Keccak.
+From V.C02 Require Import Model Lemmas Sem InsDel Unique Iter Proofs Spec SpecProofs SpecPerm ModelB ProofsB Cache CacheProofs Binding Keccak.
 Import ListNotations.
 Local Open Scope N_scope.
 
@@ -185,6 +185,68 @@ Example C02_commit_reopen_keccak :
   let t := run [OUpdate [18] (repeat 1 40); OUpdate [18; 52] (repeat 2 40); OUpdate [18; 53] [3]; OUpdate [34] (repeat 4 29)] in
   reopen (lookup (commit_db keccak256 t)) (size t) (keccak256 [128]) (root_hash keccak256 t) = Some t.
 Proof. vm_compute. reflexivity. Qed.
+
+(* BINDING: the root is a commitment.  Two tries in minimal form (RLP-encodable nodes, 32-byte hash)
+   with the same root are the same tree, or there is an explicit collision of H: two different byte
+   strings among the node encodings of the two tries and 0x80 (the empty trie) with equal hashes. *)
+Theorem C02_root_binds_tree : forall (H : bytes -> bytes), (forall x, List.length (H x) = 32%nat) ->
+  forall a b, wf_trie a = true -> wf_trie b = true -> enc_ok H a -> enc_ok H b ->
+  root_hash H a = root_hash H b -> a = b \/ collision H (witnesses H a b).
+Proof. exact binding. Qed.
+Print Assumptions C02_root_binds_tree.
+
+(* ... for histories: equal roots mean equal content (every key reads the same), or a collision. *)
+Theorem C02_root_binds_content : forall (H : bytes -> bytes), (forall x, List.length (H x) = 32%nat) ->
+  forall ops1 ops2, ops_ok ops1 -> ops_ok ops2 -> enc_ok H (run ops1) -> enc_ok H (run ops2) ->
+  root_hash H (run ops1) = root_hash H (run ops2) ->
+  (forall key, bytes_ok key -> content ops1 key = content ops2 key) \/
+  collision H (witnesses H (run ops1) (run ops2)).
+Proof. exact binding_content. Qed.
+Print Assumptions C02_root_binds_content.
+
+(* Layer B, cache (Cache.v: node flags, hash placeholders, cache generations, NodeDatabase).
+   PARTIAL refinement: on tries whose nodes are all in memory (no hash placeholder, i.e. before any
+   Commit unloads or a reopen loads lazily), every history of TryUpdate / TryDelete / TryGet / Hash that
+   the cache model completes without Panic / NoFuel yields exactly the reads and roots of layer A:
+   the cached hashes and the dirty-flag discipline are sound (a modified path always gets fresh flags,
+   a cached hash is only ever reused for unchanged content).  NOT covered by this theorem: Commit,
+   canUnload, lazy resolveHash, the NodeDatabase (those are held to the code by the HarnessB
+   correspondence, including exact memory/disk node sets, and the eager reload theorem above), and
+   totality (that Panic / NoFuel cannot occur on well-formed input). *)
+Theorem C02_cache_refines_partial : forall (H : bytes -> bytes) (d : ndb) evs l,
+  Forall ev_ok evs -> execB H d empty_trie evs = OK l -> l = execA H Empty evs.
+Proof. intros H d evs l Hok Hx. exact (execB_refines H d evs empty_trie Empty l (inv_empty H) Hok Hx). Qed.
+Print Assumptions C02_cache_refines_partial.
+
+(* the pieces: reads do not depend on flags; Hash with coherent flags returns the layer-A root *)
+Theorem C02_cache_get_partial : forall d gen fuel c key v c' dr, hash_free c = true ->
+  getB d gen fuel c key = OK (v, c', dr) -> v = get (erase c) key /\ c' = c /\ dr = false.
+Proof. exact getB_sim. Qed.
+Print Assumptions C02_cache_get_partial.
+
+Theorem C02_cache_hash_sound_partial : forall (H : bytes -> bytes) gen limit c force db,
+  wfb (erase c) = true -> hash_free c = true -> coh H force c -> sound H gen limit db c force.
+Proof. intros H gen limit c force db. apply (hashB_sound H gen limit (S (csize c))). apply Nat.lt_succ_diag_r. Qed.
+Print Assumptions C02_cache_hash_sound_partial.
+
+(* non-vacuity: the cache model completes a history with interleaved Hash calls (Keccak-256) *)
+Example C02_cache_example :
+  let evs := [EUpd [18; 52] (repeat 7 40); EHash; EUpd [18; 53] [1]; EGet [18; 52]; EHash; EDel [18; 52]; EHash; EGet [18; 52]] in
+  execB keccak256 empty_db empty_trie evs = OK (execA keccak256 Empty evs).
+Proof. vm_compute. reflexivity. Qed.
+
+(* non-vacuity of the binding hypotheses: two different one-leaf tries, encodable, toy 32-byte hash *)
+Example C02_binding_hyps :
+  let H := fun x : bytes => firstn 32 (x ++ repeat 0 32) in
+  let a := run [OUpdate [18; 52] (repeat 7 40)] in
+  (forall x, List.length (H x) = 32%nat) /\ wf_trie a = true /\ enc_ok H a.
+Proof.
+  cbv zeta. split; [|split].
+  - intros x. rewrite firstn_length, app_length, repeat_length. apply Nat.min_l. apply Nat.le_add_l.
+  - vm_compute. reflexivity.
+  - intros c Hc. vm_compute in Hc. destruct Hc as [<-|[]].
+    cbn. repeat split; try (apply bytes_okb_spec; vm_compute; reflexivity); vm_compute; reflexivity.
+Qed.
 
 (* Non-vacuity: a history with shared prefixes, a key that is a prefix of another, an overwrite, a
    delete and an empty write satisfies the hypotheses; its trie is minimal, and equals the trie of a
